@@ -548,6 +548,15 @@ pub fn check_wrappers(b64: u64, b32: u32) -> Result<(), String> {
     tls_eq(&&(b32 % 2 == 0), "&bool")?;
     tls_eq(&Box::new(char::from_u32(b32 % 0xD800).unwrap_or('x')), "Box<char>")?;
     tls_eq(&std::borrow::Cow::Borrowed("cow"), "Cow<str>")?;
+    // the crate's own error types are "any other Display type" as well
+    if let Err(e) = lean_string::LeanString::from_utf16(&[0xd800]) {
+        tls_eq(&e, "FromUtf16Error")?;
+    }
+    if let Err(e) = lean_string::LeanString::try_with_capacity(usize::MAX) {
+        tls_eq(&e, "ReserveError")?;
+        tls_eq(&lean_string::ToLeanStringError::from(e), "ToLeanStringError::Reserve")?;
+    }
+    tls_eq(&lean_string::ToLeanStringError::from(std::fmt::Error), "ToLeanStringError::Fmt")?;
     Ok(())
 }
 
